@@ -261,6 +261,7 @@ fn gen_ports(rng: &mut Rng) -> PortsSc {
     let cfg = SimCfg {
         rng_seed: rng.next_u64(),
         epoch_s: 1_000_000_000 + rng.below(1_000_000_000),
+        epoch_sub_us: 0,
         tick_us: tick_ms * 1000,
         min_latency_us: lat_ticks * tick_ms * 1000,
         max_latency_us: lat_ticks * tick_ms * 1000,
@@ -1204,7 +1205,13 @@ fn in_subnet(a: IpAddr, ipv6: bool) -> bool {
 
 fn literal(v: u32, ipv6: bool) -> IpAddr {
     if ipv6 {
-        IpAddr::V6(std::net::Ipv6Addr::new(0x2001, 0xdb8, 0, 0, 0, 0, (v >> 16) as u16, v as u16))
+        // textual forms that start with a digit, a letter or a colon; sometimes inside the simulated subnet
+        match v % 5 {
+            0 => IpAddr::V6(std::net::Ipv6Addr::new(0xfe80, 0, 0, 0, 0, 0, 0, (v >> 8) as u16 % 700)),
+            1 => IpAddr::V6(std::net::Ipv6Addr::new(0xfd00, 0, 0, 0, 0, 0, (v >> 16) as u16, v as u16)),
+            2 => IpAddr::V6(std::net::Ipv6Addr::new(0, 0, 0, 0, 0, 0, 0, 1 + (v >> 8) as u16 % 3)),
+            _ => IpAddr::V6(std::net::Ipv6Addr::new(0x2001, 0xdb8, 0, 0, 0, 0, (v >> 16) as u16, v as u16)),
+        }
     } else {
         // sometimes inside the simulated subnet
         let o = v.to_be_bytes();
@@ -1372,6 +1379,9 @@ fn run_names(sc: &NamesSc, keep: bool) -> Report {
                     log.ev(format!("#{i} Sim::lookup(literal {a}) -> {got}"));
                     log.tag("lit");
                     probes.inc("literal_lookups");
+                    if matches!(op, NOp::LiteralStr(_)) && !a.to_string().starts_with(|c: char| c.is_ascii_digit()) {
+                        probes.inc("literal_as_text_not_starting_with_a_digit");
+                    }
                     if got != a {
                         Some(Violation::new("LiteralNotItself", format!("the literal address {a} resolved to {got}")))
                     } else {
